@@ -147,6 +147,7 @@ def run_kani_unit(name, workdir, tier, prop):
         shutil.rmtree(dst)
     shutil.copytree(src, dst)
     out["extracted"] = []
+    out["transformations"] = cfg.get("transformations", [])
     try:
         for e in cfg.get("extract", []):
             if e.get("macro_body"):
